@@ -2322,6 +2322,25 @@ pub (crate) fn bid128_ext_fma(
                             z_exp    -= EXP_P1;
                             e3       -= 1;
                             res.w[1] |= z_sign | (z_exp & MASK_EXP);
+                            if e3 > EXP_MAX_UNBIASED {
+                                // exact difference, but beyond the exponent range: overflow
+                                if rnd_mode == RoundingMode::NearestEven {
+                                    res.w[1] = z_sign | 0x7800000000000000u64; // +/-inf
+                                    res.w[0] = 0x0000000000000000u64;
+                                    *pfpsf  |= StatusFlags::BID_INEXACT_EXCEPTION | StatusFlags::BID_OVERFLOW_EXCEPTION;
+                                } else {
+                                    bid_rounding_correction(rnd_mode, false, false, false, false, e3, &mut res, pfpsf);
+                                }
+                                *ptr_is_midpoint_lt_even    = is_midpoint_lt_even;
+                                *ptr_is_midpoint_gt_even    = is_midpoint_gt_even;
+                                *ptr_is_inexact_lt_midpoint = is_inexact_lt_midpoint;
+                                *ptr_is_inexact_gt_midpoint = is_inexact_gt_midpoint;
+
+                                #[cfg(target_endian = "big")]
+                                BID_SWAP128(&mut res);
+
+                                return res;
+                            }
                         } else {
                             // if q4 > 1 then truncate C4 from q4 digits to 1 digit;
                             // x = q4-1, 1 <= x <= 67 and check if this operation is exact
@@ -2374,6 +2393,25 @@ pub (crate) fn bid128_ext_fma(
                                 e3      -= 1;
                                 res.w[1] = z_sign | (z_exp & MASK_EXP) | 0x0001ed09bead87c0u64;
                                 res.w[0] = 0x378d8e6400000000u64 - R64;
+                                if e3 > EXP_MAX_UNBIASED {
+                                    // exact difference, but beyond the exponent range: overflow
+                                    if rnd_mode == RoundingMode::NearestEven {
+                                        res.w[1] = z_sign | 0x7800000000000000u64; // +/-inf
+                                        res.w[0] = 0x0000000000000000u64;
+                                        *pfpsf  |= StatusFlags::BID_INEXACT_EXCEPTION | StatusFlags::BID_OVERFLOW_EXCEPTION;
+                                    } else {
+                                        bid_rounding_correction(rnd_mode, false, false, false, false, e3, &mut res, pfpsf);
+                                    }
+                                    *ptr_is_midpoint_lt_even    = is_midpoint_lt_even;
+                                    *ptr_is_midpoint_gt_even    = is_midpoint_gt_even;
+                                    *ptr_is_inexact_lt_midpoint = is_inexact_lt_midpoint;
+                                    *ptr_is_inexact_gt_midpoint = is_inexact_gt_midpoint;
+
+                                    #[cfg(target_endian = "big")]
+                                    BID_SWAP128(&mut res);
+
+                                    return res;
+                                }
                             } else {
                                 // We want R64 to be the top digit of C4, but we actually
                                 // obtained (C4 * 10^(-q4+1))RN; a correction may be needed,
